@@ -1,9 +1,13 @@
-"""C01 - each cycle's wire values are a consistent, order-independent settlement."""
+"""C01 - each cycle's wire values are a consistent, order-independent settlement.
+
+Tie: (i) every schedule the implementation produces for a program - fetched through the hook
+`compiled` after r independent parse_y86_hcl calls, each with freshly seeded hash tables - is
+validated by the extracted predicate valid_schedule, the premise of the settlement and
+order-independence theorems; (ii) the compiled program equals the model's build_program up to the
+order of the actions; (iii) per-cycle wire values, registers and memory equal the model's."""
 import random
 import collections
-import gen
-import lib
-import simcheck
+import buildcheck, gen, lib, simcheck
 
 
 def make_cases(rng, n, cycles, **kw):
@@ -16,13 +20,49 @@ def make_cases(rng, n, cycles, **kw):
     return cases
 
 
+def deep_program(rng):
+    """Long dependency chains and diamonds through the built-in ports, statements reversed."""
+    depth = rng.randint(10, 40)
+    st = ["register pP { pc : 64 = 0; }", "p_pc = P_pc + 10;", "pc = P_pc;", "Stat = STAT_AOK;",
+          "reg_srcA = (i10bytes)[0..4];", "mem_addr = (reg_outputA + c0);", "mem_readbit = 1;", "mem_writebit = 0;", "mem_input = c0;",
+          "reg_srcB = (mem_output)[4..8];", "wire c0 : 64;", "c0 = (i10bytes)[8..72];"]
+    prev = ["reg_outputB", "mem_output", "c0"]
+    for i in range(1, depth):
+        a, b = rng.choice(prev), rng.choice(prev)
+        st.append("wire c%d : 64;" % i)
+        st.append("c%d = (%s %s %s);" % (i, a, rng.choice(["+", "^", "-", "&", "|"]), b))
+        prev.append("c%d" % i)
+        if len(prev) > 6:
+            prev.pop(0)
+    st.append("reg_dstE = (c%d)[0..4];" % (depth - 1))
+    st.append("reg_inputE = c%d;" % (depth - 1))
+    st.reverse() if rng.random() < 0.5 else rng.shuffle(st)
+    return "\n".join(st) + "\n"
+
+
 def check(report, tier, seed):
     rng = random.Random(seed)
-    n, cycles = (250, 5) if tier == "quick" else (4000, 8)
+    n, cycles, reps = (200, 5, 4) if tier == "quick" else (3000, 8, 12)
     cases = make_cases(rng, n, cycles)
+    for i in range(n // 5):
+        cases["d%d" % i] = {"hcl": deep_program(rng), "yo": gen.yo_image(rng, 10 * cycles + 40), "cycles": cycles, "flags": "-", "timeout": 9999}
     impl, model, stats = simcheck.run_sim_cases(report, cases, key_prefix="settle")
-    report.coverage["evaluations"] = len(cases)
-    report.coverage["distinct_nontrivial"] = len(set(c["hcl"] for c in cases.values()))
-    report.coverage["rule"] = "random accepted programs (ProgGen) x %d cycles; distinct = distinct program texts" % cycles
-    report.coverage["distribution"] = stats
+    # schedules under fresh hash seeds
+    bcases = {}
+    for cid, c in cases.items():
+        for r in range(reps):
+            bcases["%s_%d" % (cid, r)] = {"hcl": c["hcl"]}
+    verdicts, bstats = buildcheck.run_build_cases(report, bcases, key_prefix="schedule")
+    orders = collections.defaultdict(set)
+    for bid, v in verdicts.items():
+        if v and v[0] == "accept":
+            orders[bid.rsplit("_", 1)[0]].add(v[1])
+    distinct = sum(len(s) for s in orders.values())
+    report.coverage["evaluations"] = len(cases) + len(bcases)
+    report.coverage["distinct_nontrivial"] = distinct
+    report.coverage["rule"] = ("random accepted programs (ProgGen) and deep chains/diamonds through register file, data memory and instruction memory, "
+                               "statements shuffled or reversed, x %d cycles vs the model; each program compiled %d times under fresh hash seeds and every "
+                               "schedule validated by the extracted valid_schedule; distinct = distinct (program, action order) pairs seen" % (cycles, reps))
+    report.coverage["distribution"] = dict(stats, **{"build_" + k: v for k, v in bstats.items()},
+                                           programs_with_several_orders=sum(1 for s in orders.values() if len(s) > 1))
     report.coverage["samples"] = [list(cases.values())[0]["hcl"][:600]]
